@@ -22,14 +22,18 @@ import (
 // schedule) and under all schedules within a delay bound for short streams.
 
 type c03Case struct {
-	Msgs     []int  `json:"msgs"` // indices into c03Alphabet
-	Cuts     []int  `json:"cuts,omitempty"`
-	Chunk    int    `json:"chunk,omitempty"` // fixed write size (0 = use cuts)
-	Coalesce bool   `json:"coalesce"`
-	NotifAt  int    `json:"notif_at,omitempty"` // handler returns a notification at the j-th UPDATE (1-based), 0 = never
-	Inbound  bool   `json:"inbound"`
-	Fin      bool   `json:"fin_after_stream,omitempty"` // the remote half-closes right after the last byte
-	Note     string `json:"note,omitempty"`
+	Msgs     []int `json:"msgs"` // indices into c03Alphabet
+	Cuts     []int `json:"cuts,omitempty"`
+	Chunk    int   `json:"chunk,omitempty"` // fixed write size (0 = use cuts)
+	Coalesce bool  `json:"coalesce"`
+	NotifAt  int   `json:"notif_at,omitempty"` // handler returns a notification at the j-th UPDATE (1-based), 0 = never
+	Inbound  bool  `json:"inbound"`
+	Fin      bool  `json:"fin_after_stream,omitempty"` // the remote half-closes right after the last byte
+	// Bulk, if set, replaces Msgs by a long run: Bulk[0] messages whose body lengths cycle through Bulk[1:]
+	// (-1 = KEEPALIVE); SlowHandler makes every handler call take 1 ms of virtual time.
+	Bulk        []int  `json:"bulk,omitempty"`
+	SlowHandler bool   `json:"slow_handler,omitempty"`
+	Note        string `json:"note,omitempty"`
 }
 
 func c03Body(n int, tag byte) []byte {
@@ -42,6 +46,26 @@ func c03Body(n int, tag byte) []byte {
 
 // c03Alphabet: -1 = KEEPALIVE, otherwise UPDATE body length.
 var c03Alphabet = []int{-1, 0, 1, 4, 23, 4077}
+
+func c03BulkStream(bulk []int) (stream []byte, bodies [][]byte) {
+	for i := 0; i < bulk[0]; i++ {
+		l := bulk[1+i%(len(bulk)-1)]
+		if l < 0 {
+			stream = append(stream, wire.Keepalive()...)
+			continue
+		}
+		b := make([]byte, l)
+		for j := range b {
+			b[j] = byte(j*5 + i)
+		}
+		if l >= 4 {
+			b[0], b[1], b[2], b[3] = byte(i>>24), byte(i>>16), byte(i>>8), byte(i)
+		}
+		bodies = append(bodies, b)
+		stream = append(stream, wire.Update(b)...)
+	}
+	return
+}
 
 func c03Stream(msgs []int) (stream []byte, bodies [][]byte, bounds []int) {
 	for i, m := range msgs {
@@ -62,6 +86,9 @@ var c03Notif = []byte{3, 1, 0xde, 0xad}
 
 func c03Run(cs c03Case, ch vrt.Chooser, trace bool) (*world.World, *vrt.Exec, *world.Plugin, *world.Remote) {
 	stream, bodies, _ := c03Stream(cs.Msgs)
+	if len(cs.Bulk) > 1 {
+		stream, bodies = c03BulkStream(cs.Bulk)
+	}
 	nUpd := len(bodies)
 	expectDeliveries := nUpd
 	if cs.NotifAt > 0 && cs.NotifAt <= nUpd {
@@ -72,6 +99,12 @@ func c03Run(cs c03Case, ch vrt.Chooser, trace bool) (*world.World, *vrt.Exec, *w
 	s := &Sess{LocalAS: 65001, RemoteAS: 65002, Hold: -1, Inbound: cs.Inbound, Horizon: 20 * time.Second,
 		Plugin: func(w *world.World) *world.Plugin {
 			plug = &world.Plugin{W: w, Peer: "P1", Marker: true, NoYield: ch == nil}
+			if cs.SlowHandler {
+				plug.Handle = func(p *world.Plugin, s, n int, b []byte) *corebgp.Notification {
+					vrt.Sleep(time.Millisecond)
+					return nil
+				}
+			}
 			if cs.NotifAt > 0 {
 				plug.Handle = func(p *world.Plugin, s, n int, b []byte) *corebgp.Notification {
 					if n == cs.NotifAt {
@@ -123,6 +156,9 @@ func c03Run(cs c03Case, ch vrt.Chooser, trace bool) (*world.World, *vrt.Exec, *w
 
 func c03Judge(cs c03Case, w *world.World, e *vrt.Exec, plug *world.Plugin, rem *world.Remote) (string, string) {
 	_, bodies, _ := c03Stream(cs.Msgs)
+	if len(cs.Bulk) > 1 {
+		_, bodies = c03BulkStream(cs.Bulk)
+	}
 	if rem == nil || plug == nil {
 		return "no-connection", "the scripted connection never happened"
 	}
@@ -328,6 +364,17 @@ func c03Check(c *harness.Ctx) {
 					continue
 				}
 				if !run(c03Case{Msgs: msgs, Chunk: ch, NotifAt: j, Inbound: (si+j)%2 == 0}) {
+					return
+				}
+			}
+		}
+	}
+	// long runs: more bytes than any plausible receive buffer in one write, and more messages than any
+	// plausible batch, with instant and with slow handlers
+	for _, bulk := range [][]int{{12, 4077}, {40, 23}, {100, 23}, {300, 0, 1, 23}, {24, 4077, 23, 1000}, {64, 1000, -1, 4077}, {200, 4, -1}, {16, 4077, 4077, 0}} {
+		for _, chunk := range []int{0, 4096, 1460} {
+			for _, slow := range []bool{false, true} {
+				if !run(c03Case{Bulk: bulk, Chunk: chunk, Coalesce: true, SlowHandler: slow, Inbound: slow}) {
 					return
 				}
 			}
